@@ -9,7 +9,11 @@ LEVEL_TEXT = ("LogJson.tla states the record formula (one line; RFC 8259 object;
               "record's instant, level and message with invalid UTF-8 as U+FFFD, decoder = RFC 3629 written in the spec); TLC "
               "enumerates messages over 26 character classes x levels x call modes, the real logger.Logger (structured, stdout "
               "and file destinations) writes every case, encoding/json (trusted parser) and utf8.Valid measure each line and "
-              "TLC evaluates the formula on every measured record (TraceLogJson.tla); longer random class sequences likewise")
+              "TLC evaluates the formula on every measured record (TraceLogJson.tla); longer random class sequences likewise; "
+              "concurrent stage: 8 goroutines log distinguishable records through one real Logger (stdout pipe + file), every "
+              "output line is judged by the same formula and TLC decides that the lines are the submitted records exactly once each "
+              "(LogConc.tla, which also model-checks the lock: atomic calls under the exclusive lock, corruption reachable under "
+              "the SharedLock deviation)")
 LEVEL_NOTE = ("bounded: all 26 classes to length 2 x 4 levels x 2 call modes, the 16 base classes to length 3 (thorough: 26 classes "
               "to length 3 x 4 levels, base classes to length 4), random sequences to length 12; runs of U+FFFD are compared "
               "collapsed (the statement does not fix one-per-byte vs one-per-subpart); accepted level names are a fixed list; "
@@ -81,8 +85,24 @@ def run(ctx):
     cf = vf.write_ndjson(ctx.path("cases.ndjson"),
                          [{k: c[k] for k in ("id", "bytes", "lvl", "mode", "sec", "nano", "zone")} for c in cases])
     of = ctx.path("obs.ndjson")
-    vf.gotest_ok(ctx, PKG, "^TestVerif_C37_Replay$", cases=cf, out=of)
+
+    # concurrent stage: G goroutines x M records with distinguishable messages ("c<number>:" + a message of the
+    # sequential domain, escaping classes included) through ONE Logger, at one fixed instant
+    G, M = 8, ctx.pick(100, 1000)
+    short = [c for c in cases[:ntlc] if 1 <= len(c["msg"]) <= 2 and c["mode"] == "arg"]
+    sec0, nano0, _ = times[0]
+    conc = []
+    for k in range(1, G * M + 1):
+        src = short[(k * 7919) % len(short)]
+        conc.append({"id": k, "g": (k - 1) % G, "msg": src["msg"], "bytes": [ord(ch) for ch in "c%d:" % k] + src["bytes"],
+                     "lvl": ["debug", "info", "warn", "error"][k % 4], "sec": sec0, "nano": nano0})
+    ccf = vf.write_ndjson(ctx.path("conc_cases.ndjson"), [{k: c[k] for k in ("id", "g", "bytes", "lvl", "sec", "nano")} for c in conc])
+    cof = ctx.path("conc_obs.ndjson")
+    vf.gotest_ok(ctx, PKG, "^TestVerif_C37_(Replay|Conc)$", cases=cf, out=of, env={"VERIF_CASES2": ccf, "VERIF_OUT2": cof})
     obs = vf.read_ndjson(of)
+    clines = vf.read_ndjson(cof)
+    if not clines:
+        raise vf.Infra("the concurrent stage recorded no output line")
     if len(obs) != 2 * len(cases):
         raise vf.Infra("harness recorded %d observations for %d cases" % (len(obs), len(cases)))
     for o in obs:
@@ -99,16 +119,63 @@ def run(ctx):
         rec.update({"bytes": c["bytes"], "lvl": c["lvl"], "sec": c["sec"], "nano": c["nano"]})
         recs.append(rec)
 
+    nseq = len(recs)
+    orphan = {"bytes": [], "lvl": "info", "sec": sec0, "nano": nano0}
+    for o in clines:                      # every output line of the concurrent stage, judged as the record it names
+        c = conc[o["claimed"] - 1] if 1 <= o["claimed"] <= len(conc) else orphan
+        rec = {k: o[k] for k in fields}
+        rec.update({"bytes": c["bytes"], "lvl": c["lvl"], "sec": c["sec"], "nano": c["nano"]})
+        recs.append(rec)
+
     bad = []       # (obs, monitor, named deviation the written literal exhibits)
+    cbad = []      # (line of the concurrent stage, monitor)
     drift = 0
     chunk = 40000
     for i in range(0, len(recs), chunk):
         vf.write_ndjson(ctx.specdir() + "/C37_trace.ndjson", recs[i:i + chunk])
         tv = vf.tlc(ctx, "TraceLogJson", "TraceLogJson.cfg", workers=1, timeout=1500, java_opts=["-Xmx8g"])
         for b in tv.tagged("BAD"):
+            j = i + b["l"] - 1
             for mon in b["monitors"]:
-                bad.append((obs[i + b["l"] - 1], mon, b["deviation"]))
+                if j < nseq:
+                    bad.append((obs[j], mon, b["deviation"]))
+                else:
+                    cbad.append((clines[j - nseq], mon))
         drift += len(tv.tagged("DRIFT"))
+
+    # concurrent stage: multiset verdict by TLC (LogConc.tla; the same run model-checks the lock: calls are atomic under
+    # the exclusive lock, and the SharedLock deviation reaches a corrupted output on the tiny instance)
+    vf.write_ndjson(ctx.specdir() + "/C37_conc.ndjson",
+                    [{"dest": d, "n": len(conc), "ids": [o["claimed"] for o in clines if o["dest"] == d]} for d in ("stdout", "file")])
+    cm = vf.mc(ctx, "LogConc", "LogConc.cfg", workers=1, timeout=600)
+    if not cm.tagged("CORRUPT"):
+        raise vf.Infra("LogConc.tla: the SharedLock deviation did not produce a corrupted output in the model")
+    by = {}
+    for o, mon in cbad:
+        g = by.setdefault((o["dest"], mon), {"n": 0, "ex": o})
+        g["n"] += 1
+    for (d, mon), g in sorted(by.items()):
+        ctx.violation({"stage": "concurrent", "monitor": mon, "dest": d},
+                      "concurrent stage (%d goroutines x %d records through one Logger): %d output lines of the %s destination fail "
+                      "monitor %s; e.g. line %d: %r" % (G, M, g["n"], d, mon, g["ex"]["lineNo"], bytes.fromhex(g["ex"]["hex"])))
+    for b in cm.tagged("BAD"):
+        ctx.violation({"stage": "concurrent", "monitor": "Multiset", "dest": b["dest"]},
+                      "concurrent stage (%d goroutines x %d records through one Logger): the lines of the %s destination are not the "
+                      "submitted records exactly once each: %d records missing (e.g. %s), %d more than once (e.g. %s), %d lines that "
+                      "name no submitted record" % (G, M, b["dest"], len(b["missing"]), sorted(b["missing"])[:5], len(b["twice"]),
+                                                    sorted(b["twice"])[:5], b["orphans"]))
+    ctx.set("concurrent_records_submitted", len(conc))
+    ctx.set("concurrent_lines_judged", len(clines))
+    if ctx.thorough:
+        rc, rout = vf.gotest(ctx, PKG, "^TestVerif_C37_Conc$", race=True, timeout=1200,
+                             env={"VERIF_CASES2": ccf, "VERIF_OUT2": ctx.path("conc_obs_race.ndjson")})
+        if "DATA RACE" in rout:
+            ctx.note("race detector: concurrent Log calls touch shared state without exclusion (layer 1 says every call is atomic) — DRIFT")
+            ctx.set("race_detector", "DATA RACE")
+        elif rc != 0:
+            raise vf.Infra("concurrent stage under -race failed\n" + rout[-3000:])
+        else:
+            ctx.set("race_detector", "clean")
 
     # layer-1 prediction of JSON validity against the trusted parser: DRIFT only
     l1diff = sum(1 for o in obs if "l1json" in cases[o["id"]] and cases[o["id"]]["l1json"] != (o["json"] and o["utf8"]))
@@ -155,7 +222,7 @@ def run(ctx):
 
     ctx.set("cases_enumerated", ntlc)
     ctx.set("cases_random", len(cases) - ntlc)
-    ctx.set("traces_validated_against_impl", len(recs))
+    ctx.set("traces_validated_against_impl", len(recs) + 2)
     ctx.set("trace_records", len(recs))
     ctx.set("records_failing", len({(o["id"], o["dest"]) for o, _, _ in bad}))
     ctx.set("failing_by_group", {"%s/%s/%s" % k: g["n"] for k, g in sorted(groups.items())})
